@@ -128,6 +128,14 @@ class P(Prop):
         (M, "TV.C09.paths_below_of_bounded", "the sentinel hypothesis made checkable: no table entry above B >= 0 and 2N*B below the sentinel imply PathsBelow"),
         (M, "TV.C09.likelihood_form_nonneg", "T4': for non-negative likelihoods (zeros and values above 1 included), guard 0 < eps <= 1 and 2N*(-log eps) below the sentinel (code's constants: < 1e296 epochs) the decoded sequence has maximal guarded joint likelihood and the last recorded cost is -log of it - no hypothesis on running costs"),
         (M, "TV.C09.candidates_without_length", "T11: S returning at some epoch something without a length (generator, None, a bare state): TypeError, the flag or-ed into the object, nothing of the track written"),
+        (M, "TV.C09.estimate_reads_call_time_track", "T13: S(track,k), Q(..,track), P(..,track) may read the track: estimate depends on them only through their values on the track it is handed as it is when the call is made - functions that agree there (and differ on any other track, e.g. the half-written ones of the backward step) give the same track, exception and flag"),
+        (M, "TV.C09.estimate_is_frozen_model", "T13, oracle form: decoding with track-reading user functions is decoding with the candidate lists and likelihood tables frozen when the call is made"),
+        (M, "TV.C09.estimateS_reads_call_time_track", "T13 for any return type of S and any numbers (TypeError / ValueError of math.log included)"),
+        (M, "TV.C09.user_exception_nothing_written", "T14: whenever the call ends with the exception of a user function the track is exactly what it was (no feature created, no cell, no position) and the flag has been or-ed"),
+        (M, "TV.C09.user_exception_from_S", "T14a: S(track,k) raising at some epoch - whatever the other epochs return, whatever the observation names: that exception, nothing written (every S(track,k) is called before the first len())"),
+        (M, "TV.C09.user_exception_from_call", "T14b: the first failing Plog / Qlog call in the order of the code (first column; per epoch, per candidate: transitions from every candidate of the previous epoch, then the observation) is a user function's exception: it propagates, nothing written"),
+        (M, "TV.C09.no_user_exception", "T14c: no user function raises on the track of the call: the call is estimateS on the functions' values (T10-T12, hence T5-T9)"),
+        ("TracklibVerif.Lemmas.HmmCall", "TV.Hmm.estimateS_ne_user", "estimate with total user functions never reports a user function's exception: every error of the front end is one of its own (index, value, exit, AnalyticalFeatureError, type)"),
         ("TracklibVerif.Lemmas.HmmPos", "TV.Hmm.writeBack_forward_pos", "the backward loop in modes 3,4,5: the position of every epoch j is rebound to STATES[j][back j], the object written to hmm_inference[j]"),
         ("TracklibVerif.Lemmas.HmmPos", "TV.Hmm.writeBack_xyz", "the backward loop, whatever the tables and wherever it stops: no coordinate of the track's own position objects is written"),
         (H, "TV.Hmm.writeBack_forward", "the backward loop with its writes: hmm_inference[j] = STATES[j][back j], hmm_cost[j] = TAB_VAL[j][back j] for every epoch, nothing else touched, no exception"),
@@ -139,7 +147,7 @@ class P(Prop):
     open_statements = [
         "IEEE-754: monotonicity of float + on finite values and the rounding of math.log are not proved (theorems are over linear orders / ordered monoids / groups / reals); the float streams are covered by the correspondence and the sampled oracle only",
         "numpy.argmin on NaN, infinite user-supplied logs and path costs >= 1e300 (sentinel reached) are outside the hypotheses (PathsBelow is discharged for bounded entries and for non-negative likelihoods: paths_below_of_bounded, likelihood_form_nonneg; user-supplied logarithms without a bound keep it as a hypothesis)",
-        "the user functions S, Q, P are parameters of the model (any functions of state, observation, epoch and track); exceptions raised by them are not modelled (math.log of a negative 'likelihood' is: T12)",
+        "the user functions S, Q, P are parameters of the model (any functions of state, observation, epoch and track - track-reading ones included: T13; raising ones included: T14, one exception kind for all of them); user functions with SIDE EFFECTS (writing the track, an iterator that is consumed, random sampling: S(track,k) called twice would differ) are outside the model - a function is a value here",
         "feature names t, timestamp as observations are outside the model (`unsupported`; x, y, z are modelled: T9); writing x, y, z through setObsAnalyticalFeature (an in-place write of the position object by the USER) is outside the model",
         "object identity: the model represents a state by its label and a position by a reference (own object / state object), with no writer of a coordinate, so 'estimate does not modify what S returned' is a property of the model by construction (T8: xyz unchanged, stXYZ a constant); that the IMPLEMENTATION modifies neither a state object nor a container is checked by the harness after every call (every candidate re-read by value, every container re-read by identity), not proved",
         "S returning a container whose len() / [i] have side effects or disagree (a dict, a one-shot view), or a bare state that itself has a length (a str, a tuple: its items become the candidates) are outside the model",
@@ -148,7 +156,9 @@ class P(Prop):
                 "HMM.Qlog / HMM.Plog (conversion -log(v + 1e-300) unless the flag is set; ValueError of math.log when v + 1e-300 <= 0), HMM.__getObs (feature values of the epoch, the first two / three "
                 "fields merged into a Coords in modes 1,3 / 2,4, exit() when there are too few), HMM.estimate as a whole: self.log = self.log or log, "
                 "compilation of STATES (whatever S returns: used through len() and [i]; TypeError of len() on a generator / None / bare state before anything is written) "
-                "and OBS before any write, first column, forward recursion with the 1e300 sentinel and strict <, "
+                "and OBS before any write, every user function evaluated on the track of the call (they may read it) and in the order of the code "
+                "(all S, then the first column, then per epoch and candidate the transitions and the observation: the first exception of a user function "
+                "or of math.log leaves the call), first column, forward recursion with the 1e300 sentinel and strict <, "
                 "createAnalyticalFeature of the two result names (no-op when present), numpy.argmin of the last column, backward loop writing the state "
                 "OBJECT and the recorded cost per epoch and the position in modes 3,4,5, with the partial writes left by an IndexError / ValueError on "
                 "an epoch without candidates; tracklib/core/track.py as far as this path uses it: createAnalyticalFeature, setObsAnalyticalFeature, "
@@ -173,7 +183,12 @@ class P(Prop):
             "state objects and containers fresh at every call, or constants of the session, or ONE container object for all epochs; flavour trackpos: the "
             "candidate states are the position OBJECTS of the decoded track (other epochs' positions), decoded in modes 3,4,5 too; every label is read from the "
             "state's VALUE after the call and every candidate / container is re-read after the call; the oracle re-derives the optimum of EVERY call by "
-            "enumeration from the tables and the observations that call was given. non-trivial = at least 2 epochs and at least 2 candidate sequences")
+            "enumeration from the tables and the observations that call was given. User functions that READ THE TRACK they are handed (22% of the models): "
+            "S(track,k) chooses its candidate table, Q / P the column of their table from a digit read at epoch k+off (off -1..2, cyclic) of x, y, z, idx, "
+            "hmm_inference, hmm_cost or a user feature - candidates laid out from the next fix, a model that depends on an earlier decoding; in the modes 3,4,5 "
+            "and in second decodings the value read changes WHILE the call writes its result; the oracle freezes what every such function saw in the track "
+            "when the call was made and enumerates that model. User functions that RAISE for some arguments (5% of the models; S at an epoch, P at (epoch, state), "
+            "Q at (epoch, state, state)): outside the statement when the argument is reached, status and untouched track compared. non-trivial = at least 2 epochs and at least 2 candidate sequences")
 
     # ------------------------------------------------------------------ setup / implementation
     def setup(self):
